@@ -232,6 +232,19 @@ def run(ctx):
     missing = [k for k in cl if k not in FA.insts]
     ctx.check(not missing, "CD", "B-subset-A", "every parse-path instance of the minimal build also exists in the default build", "",
               how="%d instances" % len(cl), why=str(missing[:5]))
+    # and the other way round: from the same public roots, the default build must reach the same repo functions - a function that
+    # exists only with a feature (an override of a trait's provided method behind #[cfg(feature = ..)], a feature-gated helper)
+    # and is reachable from the parse API makes the result depend on the feature although every common body is identical
+    roots_a = [k for k in roots if k in FA.insts]
+    cl_a = P.repo_closure(FA, roots_a, exclude=("test_utils",))
+    extra = [k for k in cl_a if k not in cl]
+    lost = [k for k in cl if k not in cl_a]
+    # the same instance key can resolve to different code (a trait's provided method in one build, a cfg-gated override of it in the
+    # other): the monomorphic bodies of the parse path, after INLINE, must be identical too
+    extra += ["%s (resolves to different code)" % k for k in cl if k in FA.insts and k in cl_a and CD.body_hash(FA.insts[k]) != CD.body_hash(FB.insts[k])]
+    ctx.check(not extra and not lost and len(roots_a) == len(roots), "CD", "same-parse-path", "from the public roots of the minimal build, the default build reaches exactly the "
+              "same repo functions, resolved to the same code (no feature-gated override or helper on the parse path)", "",
+              how="%d instances in both closures" % len(cl_a), why="only with features: %s; only without: %s" % (extra[:6], lost[:6]))
     if ctx.tier == "thorough":
         FC = ctx.F("C")
         FD = ctx.F("D")
